@@ -17,6 +17,9 @@ CLAIMS = {
  "C16": dict(ref="7/C16",
    text="Proof (Coq): (1) dulwich's check_ref_format and git's check_refname_format (refs.c, transcribed) accept exactly the same names, for every NUL-free byte string of any length — bisimulation of the two automata over all 255 bytes with the 1843 reachable product states enumerated by vm_compute (finite state space, unbounded names). (2) files backend as a two-level store (loose + packed): pack_refs changes no visible ref and no resolution through symbolic refs, in every state; set_if_equals / add_if_new / remove_if_equals / set_symbolic_ref change exactly the resolved name and succeed exactly when their condition holds, otherwise leave the store unchanged; a deleted ref cannot resurface from packed-refs. Correspondence: names exhaustive to length 3-4 over a 21-symbol class alphabet vs dulwich and the git binary; operation sequences (loose/packed/symbolic/HEAD, D/F collisions, reopen) on a real DiskRefsContainer vs the model step by step, git for-each-ref/symbolic-ref on the resulting directory, Dict and Reftable backends on the restricted sequence class. Partial: directory bookkeeping is abstracted to the collision rule; packed-refs file codec, peeled values and NamespacedRefsContainer are exercised, not proved; names with NUL cannot be given to the git binary.",
    note="Nine theorems closed under the global context. git 2.39.5 check-ref-format / for-each-ref / symbolic-ref are oracles."),
+ "C11": dict(ref="7/C11",
+   text="Proof (Coq): git's offset varint round-trips for every n; v4 path prefix compression round-trips against any previous path; one cache entry written in version 2, 3 or 4 reads back with every field (names of any length incl. the saturated 12-bit length field, all flag / extended-flag combinations, dev/ino/size modulo 2^32); a whole file (header, any number of entries, v4 chaining, version bump) reads back as the same entry list followed by the untouched remainder (extensions, trailer). Correspondence: helper level (varint, compression), entries on boundary stat values and names of length 0xFFE..0x1001, whole files through Index.write vs model bytes; git ls-files on dulwich-written indexes; git-written indexes (versions 2-4, conflict stages, skip-worktree) read by dulwich and by the model. Partial: sort order, SHA trailer check and extension round trip are checked on the implementation and against git each run, not proved; float times are not modelled.",
+   note="Four theorems closed under the global context. git 2.39.5 ls-files / update-index are oracles."),
 }
 props = [json.loads(l) for l in open(os.path.join(V, "properties.jsonl"))]
 base = json.load(open("/root/.vp/BASELINE.json"))
